@@ -55,8 +55,9 @@ theorem spavSpecGo_perm {p₁ p₂ : Profile} (h : p₁.Perm p₂) :
 /-- **SPAV: ballot-order independence.**  On a profile of duplicate-free ballots the outcome (the elected list, in
     election order, or the refusal) is the SAME for every order of the ballots. -/
 theorem spav_perm {p₁ p₂ : Profile} (h : p₁.Perm p₂) (hwf : WF p₁) (n : Nat) : spav p₁ n = spav p₂ n := by
-  rw [spavGo_eq_spec hwf n [] |> fun e => (show spav p₁ n = spavSpecGo p₁ n [] from e),
-    (show spav p₂ n = spavSpecGo p₂ n [] from spavGo_eq_spec (wf_perm h hwf) n [])]
+  have e₁ : spav p₁ n = spavSpecGo p₁ n [] := spavGo_eq_spec hwf n []
+  have e₂ : spav p₂ n = spavSpecGo p₂ n [] := spavGo_eq_spec (wf_perm h hwf) n []
+  rw [e₁, e₂]
   exact spavSpecGo_perm h n []
 
 theorem exceptEquiv_of_eq {α : Type} {R : α → α → Prop} (hR : ∀ a, R a a) {x y : Except Err α} (h : x = y) :
@@ -92,28 +93,67 @@ theorem pavOrder_perm {p₁ p₂ : Profile} (h : p₁.Perm p₂) (a : List Cand)
   unfold pavOrder
   rw [hs]
 
+/-- (the content of `VL.C12.pav_eq_spec`, restated here so that this file only depends on lemma files) -/
+theorem pavStep_eq_spec (coefs : List Rat) (hc : CoefsOK coefs) (votes : Profile) (hwf : WF votes) (n : Nat) :
+    (pavStep coefs votes n).1 =
+      match pavSpec votes n with
+      | some a => .ok (pavOrder votes a)
+      | none => .error .notImplemented := by
+  obtain ⟨hok, hlen⟩ := extendCoefs_ok hc n
+  unfold pavStep pavSpec
+  simp only
+  rw [bestAlts_eq hok hwf _ (by omega)]
+  show (match maximisers votes (allCands votes) n with
+        | [a] => orderByScore (extendCoefs coefs n) votes a
+        | _ => Except.error Err.notImplemented) = _
+  have hmem : ∀ a ∈ maximisers votes (allCands votes) n, a.length = n :=
+    fun a ha => (mem_combos.mp (maximisers_sub ha)).2
+  rcases hm : maximisers votes (allCands votes) n with _ | ⟨a, _ | ⟨b, t⟩⟩
+  · rfl
+  · have : a.length = n := hmem a (by rw [hm]; simp)
+    simp only
+    rw [orderByScore_eq hok hwf (by omega)]
+  · rfl
+
 /-- **PAV: ballot-order independence**, any valid cache state (any history of calls on the instance): the outcome —
     the committee in its reported order, or the refusal — is the SAME for every order of the ballots. -/
 theorem pavStep_perm {p₁ p₂ : Profile} (h : p₁.Perm p₂) (hwf : WF p₁) (coefs : List Rat) (hc : CoefsOK coefs) (n : Nat) :
     (pavStep coefs p₁ n).1 = (pavStep coefs p₂ n).1 := by
-  have e₁ : (pavStep coefs p₁ n).1 = match pavSpec p₁ n with
-      | some a => .ok (pavOrder p₁ a)
-      | none => .error .notImplemented := by
-    obtain ⟨hok, hlen⟩ := extendCoefs_ok hc n
-    unfold pavStep pavSpec
-    simp only
-    rw [bestAlts_eq hok hwf _ (by omega)]
-    show (match maximisers p₁ (allCands p₁) n with
-          | [a] => orderByScore (extendCoefs coefs n) p₁ a
-          | _ => Except.error Err.notImplemented) = _
-    have hmem : ∀ a ∈ maximisers p₁ (allCands p₁) n, a.length = n :=
-      fun a ha => (mem_combos.mp (maximisers_sub ha)).2
-    rcases hm : maximisers p₁ (allCands p₁) n with _ | ⟨a, _ | ⟨b, t⟩⟩
-    · rfl
-    · have : a.length = n := hmem a (by rw [hm]; simp)
-      simp only
-      rw [orderByScore_eq hok hwf (by omega)]
-    · rfl
-  sorry
+  rw [pavStep_eq_spec coefs hc p₁ hwf n, pavStep_eq_spec coefs hc p₂ (wf_perm h hwf) n, pavSpec_perm h n]
+  cases pavSpec p₂ n with
+  | none => rfl
+  | some a => simp only [pavOrder_perm h a]
+
+/-- **PAV (fresh instance): ballot-order independence** — equal outcomes -/
+theorem pav_perm {p₁ p₂ : Profile} (h : p₁.Perm p₂) (hwf : WF p₁) (n : Nat) : pav p₁ n = pav p₂ n :=
+  pavStep_perm h hwf freshCoefs freshCoefs_ok n
+
+/-- what a successful PAV call returns: individually elected candidates only -/
+theorem pav_ok_shape {p : Profile} (hwf : WF p) {n : Nat} {r : List Slot} (hr : pav p n = .ok r) :
+    ∃ e : List Cand, r = e.map Slot.cand := by
+  unfold pav at hr
+  rw [pavStep_eq_spec freshCoefs freshCoefs_ok p hwf n] at hr
+  cases hs : pavSpec p n with
+  | none => rw [hs] at hr; cases hr
+  | some a =>
+    rw [hs] at hr
+    injection hr with hr
+    refine ⟨(sortDesc (dropsOf p a)).map (·.1), ?_⟩
+    rw [← hr, pavOrder_eq, List.map_map]; rfl
+
+/-- the same in the shared vocabulary of C10: the same exception, or `SlotsEquiv` (here even equal) results -/
+theorem pav_perm_equiv {p₁ p₂ : Profile} (h : p₁.Perm p₂) (hwf : WF p₁) (n : Nat) :
+    ExceptEquiv SlotsEquiv (pav p₁ n) (pav p₂ n) := by
+  have he := pav_perm h hwf n
+  cases hr : pav p₁ n with
+  | error e => rw [← he, hr]; exact rfl
+  | ok r =>
+    rw [← he, hr]
+    obtain ⟨e, rfl⟩ := pav_ok_shape hwf hr
+    exact slotsEquiv_refl _ ⟨e, [], 0, by simp⟩
+
+example : WF [([0, 1], 3), ([2], 2), ([0], 1)] ∧
+    [([0, 1], (3 : Rat)), ([2], 2), ([0], 1)].Perm [([0], 1), ([2], 2), ([0, 1], 3)] := by decide +kernel
+example : pav [([0], 1), ([2], 2), ([0, 1], 3)] 2 = .ok [Slot.cand 0, Slot.cand 2] := by decide +kernel
 
 end VL.Perm
